@@ -148,7 +148,7 @@ func (g *Gen) paramOp(st *State) Ev {
 		case 3:
 			p.Multiple = g.in(0, -2)
 		default:
-			p.RefundDelay = 1 // (one of the two periods is then zero)
+			p.RefundDelay = 0 // (a lock of no time at all)
 		}
 	}
 	return Ev{Name: "SetParams", RParams: &p}
@@ -256,6 +256,9 @@ func (g *Gen) call(st *State) Ev {
 		Timeout: t, Super: g.chance(0.1), Rep: g.chance(0.6)}
 	if g.chance(0.1) {
 		e.Signer = g.pick(g.All)
+	}
+	if g.chance(0.02) { // (stateless validation must refuse a timeout that is not positive)
+		e.Timeout = g.in(0, -1, -3)
 	}
 	if e.Rep {
 		e.Freq = g.in(0, t, t+1, t+2, t+3)
